@@ -216,7 +216,8 @@ def judge_c13(cfg, out, ctx):
         exp = [t for t in exp if t <= (out.exc_at or 0)]
         fired = fired[:len(exp)]
     if cfg["rebalance"] != "buy_and_hold":
-        lost = [t for t in want if t not in set(t2 for t2, _ in out.rec.events)]
+        seen_ = set(t2 for t2, _ in out.rec.events)
+        lost = [t for t in want if t not in seen_]
         if out.exc is None:
             ctx.check("C13", not lost, "scheduled_instant_never_met_the_clock",
                       lambda: {"instants": [iso(x) for x in lost[:5]]})
